@@ -63,30 +63,44 @@ func c17R1(h H) {
 		}
 	}
 	if sp := h.fn("R1", limPkg, "SortPathLimits"); sp != nil {
-		cmpFn := h.p.Func(limPkg, "LengthDescending")
-		uses := false
-		allInstrs(sp, func(in ssa.Instruction) {
-			if st, ok := in.(*ssa.Store); ok {
-				if f, ok := st.Val.(*ssa.Function); ok && f == cmpFn {
-					uses = true
-				}
-				if mc, ok := st.Val.(*ssa.MakeClosure); ok && mc.Fn == cmpFn {
-					uses = true
+		// decided as a table (E10; sort.Sort is modelled by an insertion sort driven by the type's own methods)
+		bad, n := "", 0
+		plT := underlying(sp.Params[0].Type()).(*types.Slice).Elem()
+		for _, in := range [][]string{{"/a", "/a/b/c", "/a/b"}, {"/", "/upload/", "/up"}, {"/x/y", "/x"}, {"/only"}, {}, {"/aa", "/b", "/cccc", "/dd"}} {
+			n++
+			var vs []aval
+			for i, p := range in {
+				vs = append(vs, astruct{map[string]aval{"Path": astr(p), "Limit": aint(int64(100 + i))}})
+			}
+			var list aval = anil{}
+			if len(vs) > 0 {
+				list = newVals(vs, plT)
+			}
+			env := &absEnv{noFork: true, maxSteps: 100000, globals: map[string]*aobj{}}
+			if _, und := env.run(sp, []aval{list}); und != "" {
+				bad = sprintf("SortPathLimits(%q): undecided — %s", in, und)
+				break
+			}
+			var got []string
+			if sl, ok := list.(avals); ok {
+				for _, cl := range sl.cells {
+					p, _ := env.load(cl, "Path").(astr)
+					got = append(got, string(p))
 				}
 			}
-		})
-		desc := false
-		if cmpFn != nil {
-			for _, rv := range returnValues(cmpFn, 0) {
-				if b, ok := rv.(*ssa.BinOp); ok {
-					lx, ly := lenOfParamField(b.X), lenOfParamField(b.Y)
-					if b.Op == token.GTR && lx == 0 && ly == 1 || b.Op == token.LSS && lx == 1 && ly == 0 {
-						desc = true
-					}
+			for i := 1; i < len(got); i++ {
+				if len(got[i-1]) < len(got[i]) {
+					bad = sprintf("SortPathLimits(%q) leaves %q: %q comes before the longer %q", in, got, got[i-1], got[i])
 				}
+			}
+			if len(got) != len(in) && bad == "" {
+				bad = sprintf("SortPathLimits(%q) leaves %q", in, got)
+			}
+			if bad != "" {
+				break
 			}
 		}
-		r.Check(uses && desc, "R1", "limits.SortPathLimits/longest-first", sp.Pos(), "paths are ordered by decreasing length so the most specific limit is found first")
+		r.Check(bad == "", "R1", "limits.SortPathLimits/longest-first", sp.Pos(), "paths are ordered by decreasing length so the most specific limit is found first", sprintf("%d lists sorted", n), bad)
 	}
 }
 
